@@ -105,6 +105,7 @@ type CaseResult struct {
 	BadCrash   bool // some crash landed at write index 1 of an application (before f41125c: after the state write, before the block save)
 	StaleFiles bool // a crash happened after a clean restart had written non-empty cache files
 	Applied    int
+	MaxStep    int // the largest number of blocks applied while one item was handled
 }
 
 func (r *CaseResult) rootID(b []byte) int {
@@ -251,6 +252,9 @@ func (rn *runner) oracleStep(o Obs) {
 		r.fail("height-decreased", fmt.Sprintf("store height went from %d to %d", rn.maxH, o.Height))
 	}
 	if o.Height > rn.maxH {
+		if len(r.Obs) > 1 && int(o.Height-rn.maxH) > r.MaxStep {
+			r.MaxStep = int(o.Height - rn.maxH)
+		}
 		rn.maxH = o.Height
 	}
 	if o.Status == 1 && !rn.haltExpected {
